@@ -1,11 +1,11 @@
 CONSTANTS
-  MaxFrames = 1
-  Lens = {3, 5}
+  MaxFrames = 2
+  Lens = {3}
   H = 3
-  Preface = 4
-  Peek = 0
-  MaxTimeouts = 0
-  Defects = {"PrefaceFlagEarly"}
+  Preface = 0
+  Peek = 1
+  MaxTimeouts = 1
+  Defects = {"ShortCountAfterTimeout"}
 SPECIFICATION Spec
 INVARIANTS InOrderOnce NoEarly Prompt Consumed PrefaceOnce NoError NoByteLost SameForEveryCut
 CHECK_DEADLOCK FALSE
